@@ -35,6 +35,8 @@ CONSTANTS Callers,      \* caller ids
           MaxFaults,    \* injected faults overall (0 = unbounded)
           SubsInit,     \* initial values of `subs` ({FALSE}, {TRUE} or BOOLEAN)
           MaySubscribe, \* subscribe() may be called during the run
+          RestoreReqs,  \* how many requests the restore of subscriptions makes ({2} in the library)
+          Loose,        \* TRUE (trace validation only): choices of the library that no property depends on are left open
           Guarded       \* TRUE: keys are installed only if the link the pair-verify ran on is still up
 
 VARIABLES links, cur, enc, sctr, rctr, stored, shut, subs, rpend, opH, opQ, cnH, cnQ, cl, nextEp, hw, ahw, instd, dead, bad, faults
@@ -47,7 +49,7 @@ NoFrag == <<0, 0>>
 
 NewLink == [up |-> TRUE, pvs |-> "none", ae |-> 0, rc |-> 0, sc |-> 0, got |-> 0, resp |-> FALSE]
 Idle == [kind |-> "none", pc |-> "idle", att |-> 0, n |-> 0, nw |-> 0, ri |-> 0, j |-> 0, je |-> 0, ln |-> 0, wake |-> "none",
-         exc |-> "none", res |-> "none", cw |-> 0, ep |-> 0, c0 |-> 0, frag |-> NoFrag, tidok |-> TRUE, more |-> FALSE, calls |-> 0, rst |-> FALSE]
+         exc |-> "none", res |-> "none", cw |-> 0, ep |-> 0, c0 |-> 0, frag |-> NoFrag, tidok |-> TRUE, more |-> FALSE, calls |-> 0, rst |-> FALSE, rk |-> 0]
 
 Links == 1..Len(links)
 Up(S, n) == n # 0 /\ S.links[n].up
@@ -128,11 +130,15 @@ OpGranted(c) ==
 
 \* restore_connection_and_resume / _populate_accessories_and_characteristics / _ensure_connected (first check)
 Start(c) ==
-    /\ cl[c].pc = "start" /\ opH = c
+    /\ cl[c].pc = "start" /\ opH = c /\ ~shut
     /\ LET S == St IN
-       Commit(IF S.shut THEN [S EXCEPT !.cl[c].pc = "fin"]
+       Commit(IF S.shut THEN S          \* see StartShut
               ELSE IF Connected(S) THEN [S EXCEPT !.cl[c].pc = "pvchk"]
               ELSE AcquireCn(S, c, "conn0"))
+\* after shutdown() an operation does nothing (the library returns None; raising would be just as good): no attempt is made
+StartShut(c, raises) ==
+    /\ cl[c].pc = "start" /\ opH = c /\ shut
+    /\ Commit(IF raises THEN ToRaise(St, c, "err") ELSE [St EXCEPT !.cl[c].pc = "fin"])
 CnGranted(c) ==
     /\ cl[c].pc = "cnwait" /\ cl[c].wake = "lock" /\ cnH = c
     /\ Commit([St EXCEPT !.cl[c].pc = IF cl[c].kind \in OpKinds THEN "conn0" ELSE "cstart", !.cl[c].wake = "none"])
@@ -267,8 +273,8 @@ RdOk(c, kind, more, k) ==
                                          [] OTHER -> NoFrag])
 DecOk(c) == cl[c].ep # 0 /\ cl[c].frag = <<cl[c].ep, rctr>>
 \* _read_pdu: decrypt with the captured key object, check the PDU header, read on / finish
-Decrypt(c) ==
-    /\ cl[c].pc = "rd" /\ cl[c].wake = "frag"
+Decrypt(c, chk, k) ==
+    /\ cl[c].pc = "rd" /\ cl[c].wake = "frag" /\ (chk \/ Loose) /\ k \in RestoreReqs
     /\ LET S == St
            ep == cl[c].ep IN
        Commit(IF ~DecOk(c) THEN ToFail(S, c, "err")
@@ -276,15 +282,15 @@ Decrypt(c) ==
                    IF ~cl[c].tidok THEN ToFail(S1, c, "err")
                    ELSE IF cl[c].more THEN (IF Up(S1, cl[c].ln) THEN [S1 EXCEPT !.cl[c].j = @ + 1, !.cl[c].wake = "none"]
                                             ELSE ToFail(S1, c, "err"))
-                   ELSE IF ~Connected(S1) THEN ToRaise(S1, c, "err")        \* the check after ble_request (no close: nothing is out of step)
+                   ELSE IF chk /\ ~Connected(S1) THEN ToRaise(S1, c, "err")  \* the check after ble_request (no close: nothing is out of step)
                    ELSE IF cl[c].ri < cl[c].n THEN
-                        \* (_async_restore_subscriptions clears _restore_pending between its two requests)
-                        [S1 EXCEPT !.cl[c].pc = "req", !.cl[c].ri = @ + 1, !.cl[c].wake = "none",
-                                   !.rpend = IF cl[c].rst /\ cl[c].ri = cl[c].n - 1 THEN FALSE ELSE @]
-                   ELSE IF ~cl[c].rst /\ S1.rpend /\ ~S1.shut THEN
+                        [S1 EXCEPT !.cl[c].pc = "req", !.cl[c].ri = @ + 1, !.cl[c].wake = "none"]
+                   ELSE IF ~cl[c].rst /\ S1.rpend /\ ~S1.shut /\ Connected(S1) THEN
                         \* restore_connection_and_resume: the first operation that completes on a new connection restores the
-                        \* subscriptions: generate broadcast key + read protocol parameters (two more requests); nothing if none
-                        IF S1.subs THEN [S1 EXCEPT !.cl[c].pc = "req", !.cl[c].ri = @ + 1, !.cl[c].n = @ + 2, !.cl[c].rst = TRUE, !.cl[c].wake = "none"]
+                        \* subscriptions: generate broadcast key + read protocol parameters (k = 2 more requests); nothing if none.
+                        \* (_restore_pending is cleared between the two; the moment is not observable: a failure closes the connection)
+                        IF S1.subs THEN [S1 EXCEPT !.rpend = FALSE, !.cl[c].pc = "req", !.cl[c].ri = @ + 1, !.cl[c].n = @ + k, !.cl[c].rk = k,
+                                                   !.cl[c].rst = TRUE, !.cl[c].wake = "none"]
                         ELSE [S1 EXCEPT !.rpend = FALSE, !.cl[c].pc = "fin", !.cl[c].wake = "none"]
                    ELSE [S1 EXCEPT !.cl[c].pc = "fin", !.cl[c].wake = "none"])
 ReqFailed(c) ==
@@ -320,21 +326,23 @@ DiscDone(c) ==
               ELSE Ends(ReleaseCn(S), c, "ok"))
 
 \* the exception leaves the operation: cancelled, given up, or retried by retry_bluetooth_connection_error
-Raise(c, retry) ==
+\* (get_characteristics retries outside the operation lock, put_characteristics inside: hold)
+Raise(c, retry, hold) ==
     /\ cl[c].pc = "raise"
-    /\ retry => cl[c].exc = "err" /\ cl[c].att < MaxAtt
+    /\ retry => cl[c].exc = "err" /\ cl[c].att < MaxAtt /\ (Loose \/ (hold <=> cl[c].kind = "put"))
+    /\ ~retry => ~hold
     /\ LET S == St IN
-       Commit(IF retry THEN [(IF cl[c].kind = "get" THEN ReleaseOp(S) ELSE S)
+       Commit(IF retry THEN [(IF hold THEN S ELSE ReleaseOp(S))
                                  EXCEPT !.cl[c].pc = "backoff", !.cl[c].att = @ + 1, !.cl[c].exc = "none", !.cl[c].wake = "none", !.cl[c].ep = 0,
-                                        !.cl[c].n = IF cl[c].rst THEN @ - 2 ELSE @, !.cl[c].rst = FALSE]
+                                        !.cl[c].n = IF cl[c].rst THEN @ - cl[c].rk ELSE @, !.cl[c].rst = FALSE]
               ELSE Ends(ReleaseOp(S), c, IF cl[c].exc = "cancel" THEN "cancelled" ELSE "err"))
 \* the back-off sleep of the retry wrapper ends (timer) / is cancelled
 BackoffTimer(c) ==
     /\ cl[c].pc = "backoff" /\ cl[c].wake = "none"
-    /\ Commit(IF cl[c].kind = "get" THEN AcquireOp(St, c) ELSE [St EXCEPT !.cl[c].pc = "start"])
+    /\ Commit(IF opH = c THEN [St EXCEPT !.cl[c].pc = "start"] ELSE AcquireOp(St, c))
 BackoffCancelled(c) ==
     /\ cl[c].pc = "backoff" /\ cl[c].wake = "cancel"
-    /\ Commit(Ends(IF cl[c].kind = "put" THEN ReleaseOp(St) ELSE St, c, "cancelled"))
+    /\ Commit(Ends(IF opH = c THEN ReleaseOp(St) ELSE St, c, "cancelled"))
 Finish(c) ==
     /\ cl[c].pc = "fin"
     /\ Commit(Ends(ReleaseOp(St), c, "ok"))
@@ -358,10 +366,10 @@ Init == /\ links = << >> /\ cur = 0 /\ enc = 0 /\ sctr = 0 /\ rctr = 0 /\ stored
         /\ hw = [e \in 1..(IF MaxEp = 0 THEN 64 ELSE MaxEp) |-> 0] /\ ahw = [e \in 1..(IF MaxEp = 0 THEN 64 ELSE MaxEp) |-> 0]
         /\ instd = {} /\ dead = {} /\ bad = {} /\ faults = 0
 
-CtrlStep(c) == \/ OpGranted(c) \/ Start(c) \/ CnGranted(c) \/ ConnReq(c) \/ ConnDone(c)
+CtrlStep(c) == \/ OpGranted(c) \/ Start(c) \/ StartShut(c, TRUE) \/ StartShut(c, FALSE) \/ CnGranted(c) \/ ConnReq(c) \/ ConnDone(c)
                \/ PvStart(c, "m1") \/ PvStart(c, "m1r") \/ PvNoLink(c) \/ PvSkip(c) \/ PvM3(c) \/ PvInstall(c) \/ PvFailed(c)
-               \/ ReqStart(c) \/ Encrypt(c) \/ WriteNext(c) \/ WrDone(c) \/ Decrypt(c) \/ ReqFailed(c)
-               \/ CloseStart(c) \/ DiscDone(c) \/ Raise(c, TRUE) \/ Raise(c, FALSE) \/ BackoffCancelled(c) \/ Finish(c) \/ CStart(c)
+               \/ ReqStart(c) \/ Encrypt(c) \/ WriteNext(c) \/ WrDone(c) \/ (\E chk \in BOOLEAN, k \in RestoreReqs : Decrypt(c, chk, k)) \/ ReqFailed(c)
+               \/ CloseStart(c) \/ DiscDone(c) \/ (\E retry, hold \in BOOLEAN : Raise(c, retry, hold)) \/ BackoffCancelled(c) \/ Finish(c) \/ CStart(c)
 EnvAnswer(c) == \/ ConnOk(c) \/ PvReply(c, "m2") \/ PvReply(c, "m2r") \/ PvReply(c, "m4") \/ WrOk(c)
                 \/ \E more \in BOOLEAN : RdOk(c, "honest", more, 0)
 EnvFault(c) == \/ ConnFail(c) \/ PvReply(c, "err") \/ GattErr(c, TRUE) \/ GattErr(c, FALSE)
@@ -407,7 +415,7 @@ CloseLeavesNone == [][\A c \in Callers : (cl[c].pc # "ret" /\ cl'[c].pc = "ret" 
 \*     no connection attempt starts after shutdown() was called
 NoConnectAfterShutdown == [][\A c \in Callers : (cl[c].pc # "connecting" /\ cl'[c].pc = "connecting") => ~shut]_vars
 \* P10 nothing hangs: locks are held by callers that are running, waiters are queued
-LocksConsistent == /\ opH # 0 => cl[opH].kind \in OpKinds /\ cl[opH].pc # "idle" /\ (cl[opH].pc = "backoff" => cl[opH].kind = "put")
+LocksConsistent == /\ opH # 0 => cl[opH].kind \in OpKinds /\ cl[opH].pc # "idle" /\ (cl[opH].pc = "backoff" => Loose \/ cl[opH].kind = "put")
                    /\ cnH # 0 => cl[cnH].pc \in {"conn0", "connecting", "cstart", "disc", "cnwait"}
                    /\ \A i \in 1..Len(opQ) : cl[opQ[i]].pc = "opwait"
                    /\ \A i \in 1..Len(cnQ) : cl[cnQ[i]].pc = "cnwait"
